@@ -67,8 +67,12 @@ RetKind(kind) ==
   CASE kind \in {"int", "size_t", "unsigned char"} -> "int" [] kind \in {"double", "float"} -> "float" [] kind = "bool" -> "bool"
     [] kind \in {"char", "string"} -> "str"
 
-CallStep(op, path, name, on, var, pos, kw, log, ret, exc) ==
-  [op |-> op, path |-> path, name |-> name, on |-> on, var |-> var, pos |-> pos, kw |-> kw, log |-> log, ret |-> ret, exc |-> exc]
+\* name = the Python attribute, mname = the declared (instantiated) name, which MATLAB uses unchanged
+CallStepK(op, path, name, mname, on, var, pos, kw, log, ret, exc, kinds) ==
+  [op |-> op, path |-> path, name |-> name, mname |-> mname, on |-> on, var |-> var, pos |-> pos, kw |-> kw, log |-> log, ret |-> ret, exc |-> exc,
+   kinds |-> kinds]      \* (kinds: "<kind>", "<kind>&" for a reference, or "class:<C++ spelling>" per supplied parameter)      \* kinds of the parameters that receive the positional arguments (for the classification of known findings)
+CallStepM(op, path, name, mname, on, var, pos, kw, log, ret, exc) == CallStepK(op, path, name, mname, on, var, pos, kw, log, ret, exc, <<>>)
+CallStep(op, path, name, on, var, pos, kw, log, ret, exc) == CallStepM(op, path, name, name, on, var, pos, kw, log, ret, exc)
 NoKw == <<>>
 
 \* the first constructor of a class all of whose parameters are basic (0 = none)
@@ -106,14 +110,17 @@ ArgLog(args, cl, objs, j) == LET k == Kind(args[j].t, cl) IN IF k = "class" THEN
 NDefaults(args) == Cardinality({j \in 1..Len(args) : args[j].hasdef})
 \* the three calling styles of one binding: positional / keywords reversed / trailing defaults omitted
 \* pre = values printed before the arguments (self), entity = what the library must name
-Calls(op, path, name, on, args, cl, objs, entity, pre, ret) ==
+Calls(op, path, name, mname, on, args, cl, objs, entity, pre, ret) ==
   LET n == Len(args)
-      full == entity \o "(" \o JoinStr(pre \o [j \in 1..n |-> ArgLog(args, cl, objs, j)], ",") \o ")"
       nd == NDefaults(args)
-      short == entity \o "(" \o JoinStr(pre \o [j \in 1..n |-> IF j > n - nd THEN DefaultLog(args[j].def) ELSE ArgLog(args, cl, objs, j)], ",") \o ")"
-  IN << CallStep(op, path, name, on, "", [j \in 1..n |-> ArgPy(args, cl, j)], NoKw, <<full>>, ret, "") >>
-     \o (IF n >= 1 THEN << CallStep(op, path, name, on, "", <<>>, [j \in 1..n |-> [name |-> args[n + 1 - j].name, value |-> ArgPy(args, cl, n + 1 - j)]], <<full>>, ret, "") >> ELSE <<>>)
-     \o (IF nd >= 1 THEN << CallStep(op, path, name, on, "", [j \in 1..(n - nd) |-> ArgPy(args, cl, j)], NoKw, <<short>>, ret, "") >> ELSE <<>>)
+      \* the log when the last j arguments are left to their declared defaults
+      logOmit(j) == entity \o "(" \o JoinStr(pre \o [i \in 1..n |-> IF i > n - j THEN DefaultLog(args[i].def) ELSE ArgLog(args, cl, objs, i)], ",") \o ")"
+      kinds(m) == [i \in 1..m |-> IF Kind(args[i].t, cl) = "class" THEN "class:" \o BaseName(St(args[i].t.cpp))
+                                   ELSE Kind(args[i].t, cl) \o (IF args[i].t.q = "&" THEN "&" ELSE "")]
+  IN << CallStepK(op, path, name, mname, on, "", [j \in 1..n |-> ArgPy(args, cl, j)], NoKw, <<logOmit(0)>>, ret, "", kinds(n)) >>
+     \o (IF n >= 1 THEN << CallStepK(op, path, name, mname, on, "", <<>>, [j \in 1..n |-> [name |-> args[n + 1 - j].name, value |-> ArgPy(args, cl, n + 1 - j)]], <<logOmit(0)>>, ret, "", kinds(n)) >> ELSE <<>>)
+     \* every arity n-1 .. n-nd (C06: the toolbox offers exactly the arities n .. n-k)
+     \o [j \in 1..nd |-> CallStepK(op, path, name, mname, on, "", [i \in 1..(n - j) |-> ArgPy(args, cl, i)], NoKw, <<logOmit(j)>>, ret, "", kinds(n - j))]
 
 RetOf(r, cl) ==
   IF r.pair THEN (IF Kind(r.t1, cl) # "other" /\ Kind(r.t2, cl) # "other" THEN "tuple" ELSE "any")   \* (a type Python does not know cannot come back)
@@ -135,14 +142,13 @@ CtorPart(cr, cl, i, id) ==
            n == Len(a)
            nd == NDefaults(a)
            ent == cr.cpp \o "::<init>"
-           full == ent \o "(" \o JoinStr([j \in 1..n |-> ArgLog(a, cl, objs, j)], ",") \o ")"
-           short == ent \o "(" \o JoinStr([j \in 1..n |-> IF j > n - nd THEN DefaultLog(a[j].def) ELSE ArgLog(a, cl, objs, j)], ",") \o ")"
+           logOmit(j) == ent \o "(" \o JoinStr([q \in 1..n |-> IF q > n - j THEN DefaultLog(a[q].def) ELSE ArgLog(a, cl, objs, q)], ",") \o ")"
            ret == "obj:" \o JoinStr(cr.path, ".")
        IN Acc([k \in 1..Len(objs) |-> objs[k].step]
-              \o << CallStep("new", cr.path, "", "", "c", [j \in 1..n |-> ArgPy(a, cl, j)], NoKw, <<full>>, ret, "") >>
-              \o (IF n >= 1 THEN << CallStep("new", cr.path, "", "", "c", <<>>, [j \in 1..n |-> [name |-> a[n + 1 - j].name, value |-> ArgPy(a, cl, n + 1 - j)]], <<full>>, ret, "") >> ELSE <<>>)
-              \o (IF nd >= 1 THEN << CallStep("new", cr.path, "", "", "c", [j \in 1..(n - nd) |-> ArgPy(a, cl, j)], NoKw, <<short>>, ret, "") >> ELSE <<>>),
-              id1 + 1 + (IF n >= 1 THEN 1 ELSE 0) + (IF nd >= 1 THEN 1 ELSE 0))
+              \o << CallStep("new", cr.path, "", "", "c", [j \in 1..n |-> ArgPy(a, cl, j)], NoKw, <<logOmit(0)>>, ret, "") >>
+              \o (IF n >= 1 THEN << CallStep("new", cr.path, "", "", "c", <<>>, [j \in 1..n |-> [name |-> a[n + 1 - j].name, value |-> ArgPy(a, cl, n + 1 - j)]], <<logOmit(0)>>, ret, "") >> ELSE <<>>)
+              \o [j \in 1..nd |-> CallStep("new", cr.path, "", "", "c", [q \in 1..(n - j) |-> ArgPy(a, cl, q)], NoKw, <<logOmit(j)>>, ret, "")],
+              id1 + 1 + (IF n >= 1 THEN 1 ELSE 0) + nd)
 
 \* cr declares the member; the receiver is an object of selfcr (cr itself, or a class derived from it)
 MethodPartOn(selfcr, cr, cl, m, static, id) ==
@@ -154,7 +160,7 @@ MethodPartOn(selfcr, cr, cl, m, static, id) ==
            ent == cr.cpp \o "::" \o m.cpp
        IN Acc((IF static THEN <<>> ELSE << NewObj(selfcr, cl, "self", selfid) >>)
               \o [k \in 1..Len(objs) |-> objs[k].step]
-              \o Calls(IF static THEN "static" ELSE "method", selfcr.path, pyname, IF static THEN "" ELSE "self", m.args, cl, objs, ent,
+              \o Calls(IF static THEN "static" ELSE "method", selfcr.path, pyname, m.name, IF static THEN "" ELSE "self", m.args, cl, objs, ent,
                        IF static THEN <<>> ELSE << "obj" \o ToString(selfid) >>, RetOf(m.ret, cl))
               \o (IF ~static /\ m.name = "print" /\ Len(m.args) = 0 /\ selfcr = cr
                   THEN << CallStep("repr", cr.path, "", "self", "", <<>>, NoKw, << ent \o "(obj" \o ToString(selfid) \o ")" >>, "val:'printed'", "") >> ELSE <<>>),
@@ -239,7 +245,7 @@ NsPlan(items, nspath, cl, acc) ==
                        IF ~Suppliable(d.args, cl) THEN Acc(<<>>, acc.id)
                        ELSE LET objs == ArgObjs(d.args, cl, 1, acc.id) IN
                             Acc([k \in 1..Len(objs) |-> objs[k].step]
-                                \o Calls("func", nspath, FuncPyName(d.name), "", d.args, cl, objs, JoinStr(nspath \o <<d.cpp>>, "::"), <<>>, RetOf(d.ret, cl)),
+                                \o Calls("func", nspath, FuncPyName(d.name), d.name, "", d.args, cl, objs, JoinStr(nspath \o <<d.cpp>>, "::"), <<>>, RetOf(d.ret, cl)),
                                 acc.id + Len(objs))
                   [] d.k = "enum" ->
                        Acc([j \in 1..Len(d.enumerators) |->
@@ -253,4 +259,30 @@ NsPlan(items, nspath, cl, acc) ==
        IN NsPlan(Tail(items), nspath, cl, Cat(acc, r.steps, r.id))
 
 Plan(inst) == NsPlan(inst, <<>>, Classes(inst, <<>>), Acc(<<>>, 0)).steps
+
+\* facts about the module that decide whether a recorded MATLAB finding applies to its gateway as a whole
+RECURSIVE AllCallables(_)
+AllCallables(items) ==
+  FlatSeq([i \in 1..Len(items) |->
+     CASE items[i].k = "namespace" -> AllCallables(items[i].items)
+       [] items[i].k = "function" -> << items[i] >>
+       [] items[i].k = "class" -> items[i].methods \o items[i].statics
+       [] OTHER -> <<>>])
+RawRet(m) == (m.ret.t1.q = "@") \/ (m.ret.pair /\ m.ret.t2.q = "@")
+RECURSIVE AnyTemplatedFunction(_)
+AnyTemplatedFunction(items) ==
+  \E i \in 1..Len(items) : CASE items[i].k = "namespace" -> AnyTemplatedFunction(items[i].items)
+                               [] items[i].k = "function" -> items[i].cpp # items[i].name
+                               [] OTHER -> FALSE
+RECURSIVE AnyPointerProperty(_)
+AnyPointerProperty(items) ==
+  \E i \in 1..Len(items) : CASE items[i].k = "namespace" -> AnyPointerProperty(items[i].items)
+                               [] items[i].k = "class" -> \E j \in 1..Len(items[i].props) : items[i].props[j].t.q \in {"*", "@"}
+                               [] OTHER -> FALSE
+RECURSIVE AnyTemplateInstantiation(_)
+AnyTemplateInstantiation(items) ==
+  \E i \in 1..Len(items) : CASE items[i].k = "namespace" -> AnyTemplateInstantiation(items[i].items)
+                               [] items[i].k = "class" -> Lex.hasangle[items[i].cpp]      \* (lexical fact: the spelling has template arguments)
+                               [] OTHER -> FALSE
+Facts(inst) == [tmplclass |-> AnyTemplateInstantiation(inst), ptrprop |-> AnyPointerProperty(inst), rawret |-> \E i \in 1..Len(AllCallables(inst)) : RawRet(AllCallables(inst)[i]), tmplfunc |-> AnyTemplatedFunction(inst)]
 =============================================================================
